@@ -8,6 +8,8 @@ CONSTANTS
   Dev = {}
   Ops <- MCOpsCore
   InitConds <- MCInitAll
+  InitNold <- MCNold0
+  InitRanks <- MCRankId
 VIEW view
 CHECK_DEADLOCK FALSE
 ACTION_CONSTRAINT Emit
